@@ -34,7 +34,8 @@ PYOP = {"+": operator.add, "-": operator.sub, "*": operator.mul, "/": operator.t
 
 
 def frame():
-    return pd.DataFrame({"y": np.arange(N) * 1.0, "x": [1.5, 2.0, 0.5, 3.0, 2.0, 1.25], "z": [2.0, 1.0, 3.0, 0.5, 2.0, 1.5], "g": list("ababab")})
+    return pd.DataFrame({"y": np.arange(N) * 1.0, "x": [1.5, 2.0, 0.5, 3.0, 2.0, 1.25], "z": [2.0, 1.0, 3.0, 0.5, 2.0, 1.5], "g": list("ababab"),
+                         "code": ["1", "2", "10", "2", "1", "10"], "flag": ["True", "False", "None", "True", "nan", "1e3"]})  # text that reads like numbers / literals
 
 
 def rec(a, b=1, k=2, *more):
@@ -54,7 +55,7 @@ def rec(a, b=1, k=2, *more):
 
 
 def namespace(df):
-    return {"rec": rec, "np": np, "I": (lambda v: v), "x": df["x"], "z": df["z"], "True": True}
+    return {"rec": rec, "np": np, "I": (lambda v: v), "x": df["x"], "z": df["z"], "True": True, "code": df["code"], "flag": df["flag"]}
 
 
 OPS_Q2 = ["+", "-", "*", "/", "**", "==", "<", "<=", ">"]
@@ -399,6 +400,7 @@ CALLS = [
     "np.asarray(x)", "rec(np.asarray(x), 2)", "I(np.asarray(x) * z)",
     "rec(x, 9007199254740993)", "rec(x, k=18014398509481985)", "I(x + 9007199254740993 - 9007199254740992)", "rec(x, 0.1234567890123456789)", "rec(x, 100000000000000000000)",
     "rec(x, 2, 3, 4, 5)", "rec(x, 0.5, .5)", "rec(-x, +z)", "rec(x, k=z ** 2)", "rec(x, -2)", "rec(x, - 2)", "np.power(x, 2)", "I(np.maximum(x, z) - np.minimum(x, z))",
+    "rec(code == '2')", "rec(code + code == '22')", "rec(code == '10', 2)", "rec(code + 'a' == '10a')", "rec(flag == 'True', flag == 'None')", "rec(flag + code == 'nan1')", "rec(code != '1', k=(code == '1'))",
     "rec(x > 1, z <= 2)", "rec(x == 2.0)", "rec(x != z, x < z)", "rec(x, 'a b')", "rec(x, 'a,b)')", "rec( x ,k = 3 )", "rec(x,k=3)",
 ]
 DISTINCT = [("rec(x, 1)", "rec(x, True)"), ("rec(x, 0)", "rec(x, False)"), ("rec(x, 2)", "rec(x, 2.0)"), ("rec(x, 'a')", 'rec(x, "a")'), ("rec(x, k=1)", "rec(x, k=2)"),
